@@ -482,12 +482,164 @@ fn limits_family() {
     println!("{{\"programs\":[{}]}}", rows.join(","));
 }
 
+// ---------------------------------------------------------------- C05: interpreter arms family
+/// Big-step semantics of the core combinators on `Value`s (independent of the Bit Machine).
+fn denote(n: &RedeemNode, v: &simplicity::Value) -> Result<simplicity::Value, String> {
+    use simplicity::Value;
+    match n.inner() {
+        Inner::Iden => Ok(v.shallow_clone()),
+        Inner::Unit => Ok(Value::unit()),
+        Inner::InjL(t) => {
+            let (_, c) = n.arrow().target.as_sum().ok_or("injl target")?;
+            Ok(Value::left(denote(t, v)?, c.clone()))
+        }
+        Inner::InjR(t) => {
+            let (b, _) = n.arrow().target.as_sum().ok_or("injr target")?;
+            Ok(Value::right(b.clone(), denote(t, v)?))
+        }
+        Inner::Take(t) => denote(t, &v.as_product().ok_or("take input")?.0.to_value()),
+        Inner::Drop(t) => denote(t, &v.as_product().ok_or("drop input")?.1.to_value()),
+        Inner::Pair(s, t) => Ok(Value::product(denote(s, v)?, denote(t, v)?)),
+        Inner::Comp(s, t) => denote(t, &denote(s, v)?),
+        Inner::Case(..) | Inner::AssertL(..) | Inner::AssertR(..) => {
+            let (sum, c) = v.as_product().ok_or("case input")?;
+            if let Some(l) = sum.as_left() {
+                let arg = Value::product(l.to_value(), c.to_value());
+                match n.inner() {
+                    Inner::Case(s, _) | Inner::AssertL(s, _) => denote(s, &arg),
+                    _ => Err("assertion: hidden left side reached".into()),
+                }
+            } else {
+                let r = sum.as_right().ok_or("case tag")?;
+                let arg = Value::product(r.to_value(), c.to_value());
+                match n.inner() {
+                    Inner::Case(_, t) | Inner::AssertR(_, t) => denote(t, &arg),
+                    _ => Err("assertion: hidden right side reached".into()),
+                }
+            }
+        }
+        Inner::Disconnect(s, t) => {
+            let mut arr = [0u8; 32];
+            arr.copy_from_slice(t.cmr().as_ref());
+            let bc = denote(s, &Value::product(Value::u256(arr), v.shallow_clone()))?;
+            let (b, c) = bc.as_product().ok_or("disconnect left output")?;
+            Ok(Value::product(b.to_value(), denote(t, &c.to_value())?))
+        }
+        Inner::Witness(w) => Ok(w.shallow_clone()),
+        Inner::Word(w) => Ok(w.as_value().shallow_clone()),
+        Inner::Fail(_) => Err("fail node reached".into()),
+        Inner::Jet(_) => Err("jet".into()),
+    }
+}
+
+/// A family of small closed programs `comp (scribe input) P` covering every core combinator with
+/// sums of unequal width, re-reads of a frame after a case/drop, nested frames and disconnect;
+/// each is run by the real Bit Machine and compared with `denote` (type + compact bits).
+fn arms_family() {
+    use simplicity::types::Final;
+    use simplicity::Value;
+    let u = |n: usize| Final::two_two_n(n).unwrap();
+    let inputs: Vec<(&str, Value)> = vec![
+        ("(l(u1)+u8)xu4", Value::product(Value::left(Value::u1(1), u(3)), Value::u4(0b1011))),
+        ("(u1+r(u8))xu4", Value::product(Value::right(u(0), Value::u8(0xa7)), Value::u4(0x5))),
+        ("(l(u8)+u1)xu2", Value::product(Value::left(Value::u8(0xc3), u(0)), Value::u2(3))),
+        ("(u8+r(u1))xu2", Value::product(Value::right(u(3), Value::u1(1)), Value::u2(2))),
+        ("(l(u2)+u2)xu1", Value::product(Value::left(Value::u2(2), u(1)), Value::u1(1))),
+        ("(l(1)+u4)x1", Value::product(Value::left(Value::unit(), u(2)), Value::unit())),
+        ("(1+r(u4))xu8", Value::product(Value::right(Final::unit(), Value::u4(9)), Value::u8(0x3c))),
+    ];
+    type B = dyn for<'b> Fn(&Context<'b>) -> CN<'b>;
+    let progs: Vec<(&str, Box<B>)> = vec![
+        ("iden", Box::new(|ctx| CN::iden(ctx))),
+        ("pair(iden,iden)", Box::new(|ctx| CN::pair(&CN::iden(ctx), &CN::iden(ctx)).unwrap())),
+        ("pair(drop iden,take iden)", Box::new(|ctx| CN::pair(&CN::drop_(&CN::iden(ctx)), &CN::take(&CN::iden(ctx))).unwrap())),
+        ("pair(injl iden,injr iden)", Box::new(|ctx| CN::pair(&CN::injl(&CN::iden(ctx)), &CN::injr(&CN::iden(ctx))).unwrap())),
+        ("pair(injr(drop iden),injl(drop iden))", Box::new(|ctx| {
+            CN::pair(&CN::injr(&CN::drop_(&CN::iden(ctx))), &CN::injl(&CN::drop_(&CN::iden(ctx)))).unwrap()
+        })),
+        ("case(drop iden,drop iden)", Box::new(|ctx| CN::case(&CN::drop_(&CN::iden(ctx)), &CN::drop_(&CN::iden(ctx))).unwrap())),
+        ("pair(case(drop iden,drop iden),iden)", Box::new(|ctx| {
+            let c = CN::case(&CN::drop_(&CN::iden(ctx)), &CN::drop_(&CN::iden(ctx))).unwrap();
+            CN::pair(&c, &CN::iden(ctx)).unwrap()
+        })),
+        ("pair(case(swap-sum),drop iden)", Box::new(|ctx| {
+            // s : A x C -> (B + A) x C ; t : B x C -> (B + A) x C
+            let s = CN::pair(&CN::injr(&CN::take(&CN::iden(ctx))), &CN::drop_(&CN::iden(ctx))).unwrap();
+            let t = CN::pair(&CN::injl(&CN::take(&CN::iden(ctx))), &CN::drop_(&CN::iden(ctx))).unwrap();
+            CN::pair(&CN::case(&s, &t).unwrap(), &CN::drop_(&CN::iden(ctx))).unwrap()
+        })),
+        ("comp(pair(iden,iden),pair(drop(drop iden),take(take iden)))", Box::new(|ctx| {
+            let d = CN::pair(&CN::iden(ctx), &CN::iden(ctx)).unwrap();
+            let p = CN::pair(&CN::drop_(&CN::drop_(&CN::iden(ctx))), &CN::take(&CN::take(&CN::iden(ctx)))).unwrap();
+            CN::comp(&d, &p).unwrap()
+        })),
+        ("comp(drop iden,pair(iden,comp(iden,iden)))", Box::new(|ctx| {
+            let inner = CN::comp(&CN::iden(ctx), &CN::iden(ctx)).unwrap();
+            CN::comp(&CN::drop_(&CN::iden(ctx)), &CN::pair(&CN::iden(ctx), &inner).unwrap()).unwrap()
+        })),
+        ("pair(disconnect(iden,iden),take iden)", Box::new(|ctx| {
+            let d = CN::disconnect(&CN::iden(ctx), &Some(CN::iden(ctx))).unwrap();
+            CN::pair(&d, &CN::take(&CN::iden(ctx))).unwrap()
+        })),
+        ("pair(drop iden,disconnect(pair(drop iden,take iden),drop iden))", Box::new(|ctx| {
+            // left : 2^256 x A -> A x 2^256 ; right : 2^256 -> ... needs a product: use iden instead
+            let left = CN::pair(&CN::drop_(&CN::iden(ctx)), &CN::take(&CN::iden(ctx))).unwrap();
+            let d = CN::disconnect(&left, &Some(CN::iden(ctx))).unwrap();
+            CN::pair(&CN::drop_(&CN::iden(ctx)), &d).unwrap()
+        })),
+        ("pair(assertl(drop iden),iden) / assertr", Box::new(|ctx| {
+            let c = CN::assertl(&CN::drop_(&CN::iden(ctx)), simplicity::Cmr::unit()).unwrap();
+            CN::pair(&c, &CN::iden(ctx)).unwrap()
+        })),
+        ("pair(assertr(drop iden),iden)", Box::new(|ctx| {
+            let c = CN::assertr(simplicity::Cmr::unit(), &CN::drop_(&CN::iden(ctx))).unwrap();
+            CN::pair(&c, &CN::iden(ctx)).unwrap()
+        })),
+        ("pair(take(injl iden),comp(unit,const u8))", Box::new(|ctx| {
+            let w = CN::comp(&CN::unit(ctx), &CN::const_word(ctx, Word::u8(0x5a))).unwrap();
+            CN::pair(&CN::take(&CN::injl(&CN::iden(ctx))), &w).unwrap()
+        })),
+    ];
+    let mut out: Vec<String> = vec![];
+    for (iname, input) in &inputs {
+        for (pname, build) in &progs {
+            let name = format!("{} on {}", pname, iname);
+            let r = std::panic::catch_unwind(std::panic::AssertUnwindSafe(|| -> Result<(bool, String), String> {
+                let redeem = Context::with_context(|ctx| {
+                    let p = build(&ctx);
+                    let full = CN::comp(&CN::scribe(&ctx, input), &p).map_err(|e| e.to_string())?;
+                    full.finalize_unpruned().map_err(|e| e.to_string())
+                })?;
+                let want = denote(&redeem, &Value::unit());
+                let mut mac = BitMachine::for_program(&redeem).map_err(|e| e.to_string())?;
+                let got = mac.exec(&redeem, &simplicity::jet::CoreEnv::new());
+                Ok(match (want, got) {
+                    (Ok(w), Ok(g)) => {
+                        let same = w.is_of_type(g.ty()) && w.iter_compact().collect::<Vec<bool>>() == g.iter_compact().collect::<Vec<bool>>();
+                        (same, format!("want {} got {}", w, g))
+                    }
+                    (Err(e), Err(g)) => (true, format!("both fail: {} / {}", e, g)),
+                    (Ok(w), Err(g)) => (false, format!("want {} got error {}", w, g)),
+                    (Err(e), Ok(g)) => (false, format!("want failure ({}) got {}", e, g)),
+                })
+            }));
+            match r {
+                Ok(Ok((agree, detail))) => out.push(format!("{{\"name\":\"{}\",\"built\":true,\"agree\":{},\"detail\":\"{}\"}}", name, agree, detail.replace('"', "'"))),
+                Ok(Err(_e)) => out.push(format!("{{\"name\":\"{}\",\"built\":false,\"agree\":true,\"detail\":\"ill-typed for this input\"}}", name)),
+                Err(_) => out.push(format!("{{\"name\":\"{}\",\"built\":true,\"agree\":false,\"detail\":\"panic\"}}", name)),
+            }
+        }
+    }
+    println!("{{\"programs\":[{}]}}", out.join(","));
+}
+
 fn main() {
     let args: Vec<String> = std::env::args().skip(1).collect();
     match args[0].as_str() {
         "budget" => budget(&args[1..]),
         "convert" => convert(&args[1..]),
         "peaks" => peaks(),
+        "arms_family" => arms_family(),
         "limits_family" => limits_family(),
         "peaks_with_input" => peaks_with_input(),
         "jets" => jets(),
